@@ -261,9 +261,13 @@ func arithFingerprint(prog *Program, pk *packages.Package, node ast.Node, contVa
 		})
 		return ok && seen
 	}
-	set := map[string]bool{}
+	set := map[string]int{}
 	add := func(prefix string, n any) {
-		set[prefix+normaliseSkeleton(printNode(prog.Fset, n), contVar)] = true
+		set[prefix+normaliseSkeleton(printNode(prog.Fset, n), contVar)]++
+	}
+	constInt := func(e ast.Expr) bool {
+		tv, ok := info.Types[e]
+		return ok && tv.Value != nil
 	}
 	ast.Inspect(node, func(n ast.Node) bool {
 		switch x := n.(type) {
@@ -281,8 +285,8 @@ func arithFingerprint(prog *Program, pk *packages.Package, node ast.Node, contVa
 						o = info.Defs[id]
 					}
 					if v, ok := o.(*types.Var); ok {
-						if b, isB := v.Type().Underlying().(*types.Basic); isB && b.Info()&types.IsInteger != 0 && intOnly(x.Rhs[0]) {
-							add("", x)
+						if b, isB := v.Type().Underlying().(*types.Basic); isB && b.Info()&types.IsInteger != 0 && (intOnly(x.Rhs[0]) || (x.Tok == token.ASSIGN && constInt(x.Rhs[0]))) {
+							add("", x) // also a clamp to a constant (i = 0): it changes which index is selected
 						}
 						if b, isB := v.Type().Underlying().(*types.Basic); isB && b.Info()&types.IsBoolean != 0 {
 							if tv := info.Types[x.Rhs[0]]; tv.Value != nil {
@@ -294,7 +298,7 @@ func arithFingerprint(prog *Program, pk *packages.Package, node ast.Node, contVa
 			}
 		case *ast.BranchStmt:
 			if x.Label != nil {
-				set[x.Tok.String()+" "+x.Label.Name] = true
+				set[x.Tok.String()+" "+x.Label.Name]++
 			}
 		case *ast.ForStmt:
 			h := "for "
@@ -309,7 +313,7 @@ func arithFingerprint(prog *Program, pk *packages.Package, node ast.Node, contVa
 			if x.Post != nil {
 				h += normaliseSkeleton(printNode(prog.Fset, x.Post), contVar)
 			}
-			set[h] = true
+			set[h]++
 		case *ast.IfStmt:
 			if intOnly(x.Cond) && !isLastTest(x.Cond) {
 				add("if ", x.Cond)
@@ -318,9 +322,12 @@ func arithFingerprint(prog *Program, pk *packages.Package, node ast.Node, contVa
 		return true
 	})
 	var out []string
-	for k := range set {
+	for k, n := range set {
 		if k == "LEN := LEN" || k == "" {
 			continue
+		}
+		if n > 1 && !strings.HasPrefix(k, "push ") && !strings.HasPrefix(k, "for ") {
+			k = fmt.Sprintf("%s  (x%d)", k, n) // a multiset: a test added next to an equal one is a change
 		}
 		out = append(out, k)
 	}
